@@ -233,7 +233,12 @@ class FourierSeries:
         if not callable(ifftn):
             msg = f"Input ifftn is not callable: {ifftn}"
             raise TypeError(msg)
-        tim_ar = ifftn(self.data)
+        nsamps = self.header.nsamples
+        if nsamps % 2 == 1 and nsamps // 2 + 1 == len(self.data):
+            # An odd transform length cannot be inferred from the number of bins
+            tim_ar = ifftn(self.data, nsamps)
+        else:
+            tim_ar = ifftn(self.data)
         return timeseries.TimeSeries(tim_ar, self.header.new_header())
 
     def form_spec(self, *, interpolate: bool = False) -> PowerSpectrum:
